@@ -2544,6 +2544,14 @@ class BlockwiseTail(Tail, Blockwise):
     the last `n` rows of an entire collection.
     """
 
+    def _simplify_down(self):
+        # The rewrites of Tail create logical Tail expressions, which are
+        # not lowered again after the physical simplify pass
+        return
+
+    def _simplify_up(self, parent, dependents):
+        return
+
     def _divisions(self):
         return self.frame.divisions
 
